@@ -136,6 +136,9 @@ func solveOne(o *Obligation, watch []string, opts solveOpts, idx int) {
 		if o.Output == "" || v == "error" {
 			o.Output += "[" + backend + "] " + firstLines(out, 3) + "\n"
 		}
+		if v == "error" && backend == solvers[0].name && o.SolverErr == "" {
+			o.SolverErr = firstLines(out, 1)
+		}
 		return false
 	}
 	// stage 1
